@@ -1,6 +1,12 @@
 import ZV.Model.C23
 import ZV.Proofs.C23
 import ZV.Proofs.C23Bytes
+import ZV.Proofs.C23Hash
+import ZV.Proofs.C23Pss
+import ZV.Proofs.C23Sign
+import ZV.Proofs.C23Oaep
+import ZV.Proofs.C23Key
+import ZV.Proofs.C23Enc
 /-!
   C23 — the RSA fork computes what standard RSA computes.
 
@@ -14,6 +20,23 @@ import ZV.Proofs.C23Bytes
   * `malformed_pub_is_error`: no public operation succeeds or panics on a malformed public key.
   * `stripTo_zeros`, `stripTo_nonzero_head`, `verifyPSS_leading_octet`: `VerifyPSS` drops octets of `s^e mod n` above
     the `emLen = ⌈(modBits-1)/8⌉` octets of the encoded message only if they are zero (moduli of 8k+1 bits).
+  * `pss_encode_ok_iff`, `pss_verify_encode`: for every hash whose output has `outSize > 0` octets (`HashOk`; proved for
+    MD5 … SHA-512 from the definitions), every digest, salt and `emBits` with `emLen ≥ hLen + sLen + 2`, `emsaPSSVerify`
+    accepts what `emsaPSSEncode` builds — explicit salt length, auto (0) and equals-hash (-1).
+  * `pss_verify_iff`, `verifyPSS_iff`, `verifyPSS_never_panics`: `emsaPSSVerify` accepts EXACTLY the outputs of
+    `emsaPSSEncode` (some salt the option allows); decision logic of `VerifyPSS` for all inputs; it never panics.
+  * `pkcs1_sign_verify`, `pkcs1_verify_iff_sign`: on a valid key `SignPKCS1v15` succeeds whenever the encoded message can
+    be built, `VerifyPKCS1v15` accepts its output, and accepts nothing else.
+  * `pss_sign_verify`, `pss_verify_of_sign`: the same for `signPSSWithSalt` / `SignPSS` and `VerifyPSS` (all salt modes).
+  * `oaep_unpad_pad`, `oaep_decrypt_encrypt`: EME-OAEP padding round trip for every seed of `hLen` octets, composed with
+    RSA: `decryptOAEP (EncryptOAEP m) = m` for every message within the length bound.
+  * `oaep_unpad_iff`, `oaep_decrypt_iff`: the unpadding accepts EXACTLY the paddings; on a valid key `decryptOAEP` returns
+    `msg` exactly for the (zero-extended) `EncryptOAEP` outputs of `msg`.
+  * `pkcs1_decrypt_of_encrypt`, `pkcs1_decrypt_encrypt`: EME-PKCS1-v1_5 round trip (zero-free padding string of ≥ 8 octets,
+    separator scan), for every random stream including the zero re-draws; `pkcs1_decrypt_iff`: decision logic of
+    `DecryptPKCS1v15` on a valid key for all ciphertexts.
+  * `decrypt_total`, `decryptPKCS1v15_never_panics`, `decryptOAEP_never_panics`: on a valid key the private operations
+    return an error or a result, never the out-of-range panics the model makes explicit.
   * `hashPrefixes_wellformed` (T1): every row of the generated DigestInfo table is a DER header whose
     length bytes agree with the digest size `crypto.Hash.Size()` reports.
 -/
@@ -212,17 +235,510 @@ theorem hashPrefixes_wellformed :
     (Gen.C23.hashPrefixes.map (·.1)).Nodup := by
   decide
 
-/-! ### not proved here (kept as statements; exercised by T2/T3 only)
--- FULL: pss_verify_encode : (∀ x, (h.hash x).length = h.outSize) → 0 < h.outSize →
---         emsaPSSEncode h mHash emBits salt = .ok em →
---         emsaPSSVerify h mHash em emBits salt.length = .ok () ∧ emsaPSSVerify h mHash em emBits 0 = .ok () ∧
---         (salt.length = h.outSize → emsaPSSVerify h mHash em emBits (-1) = .ok ())
---   (the harness checks exactly this on the real code for every `pssenc` case, and the model agrees with the
---    code on every `pssenc`/`pssver` line; the Lean proof — list surgery + a UInt8 mask lemma — is missing.)
--- FULL: oaep_decrypt_encrypt : KeyOk k → encryptOAEP h k.pub seed msg label = .ok c → decryptOAEP h h k c label = .ok msg
--- FULL: pkcs1_sign_verify : KeyOk k → 2 ≤ k.e → signPKCS1v15 k h dg = .ok sig → verifyPKCS1v15 k.pub h dg sig = .ok ()
---   (follows from encrypt_decrypt + natToBytesBE_os2ip; not written out.)
--/
+/-! ### EMSA-PSS: encode, then verify -/
+
+/-- `emsaPSSEncode` succeeds exactly on digests of the hash's length when the encoded message has room for hash, salt and
+    the two fixed octets, and then returns the RFC 8017 §9.1.1 message `maskedDB ‖ H ‖ bc` (`pssEM`). -/
+theorem pss_encode_ok_iff (h : HashAlg) (mHash : Bytes) (emBits : Nat) (salt em : Bytes) :
+    emsaPSSEncode h mHash emBits salt = .ok em ↔
+      mHash.length = h.outSize ∧ h.outSize + salt.length + 2 ≤ (emBits + 7) / 8 ∧ em = pssEM h mHash emBits salt :=
+  emsaPSSEncode_ok_iff h mHash emBits salt em
+
+/-- For EVERY hash algorithm whose `hash` returns `outSize > 0` octets, every digest of that length, every salt and every
+    `emBits` with `emLen ≥ hLen + sLen + 2`: `emsaPSSEncode` succeeds and `emsaPSSVerify` accepts its output — with the
+    salt length that was used, with `PSSSaltLengthAuto` (0: the salt is located by the 01 separator) and, when the salt
+    has the length of the hash, with `PSSSaltLengthEqualsHash` (-1). -/
+theorem pss_verify_encode {h : HashAlg} (hk : HashOk h) (mHash salt : Bytes) (emBits : Nat)
+    (hmh : mHash.length = h.outSize) (hbound : h.outSize + salt.length + 2 ≤ (emBits + 7) / 8) :
+    ∃ em, emsaPSSEncode h mHash emBits salt = .ok em ∧
+      emsaPSSVerify h mHash em emBits salt.length = .ok () ∧
+      emsaPSSVerify h mHash em emBits 0 = .ok () ∧
+      (salt.length = h.outSize → emsaPSSVerify h mHash em emBits (-1) = .ok ()) :=
+  ⟨pssEM h mHash emBits salt, (pss_encode_ok_iff ..).2 ⟨hmh, hbound, rfl⟩,
+    emsaPSSVerify_pssEM hk mHash salt emBits _ hmh hbound (Or.inl rfl),
+    emsaPSSVerify_pssEM hk mHash salt emBits _ hmh hbound (Or.inr (Or.inl rfl)),
+    fun hs => emsaPSSVerify_pssEM hk mHash salt emBits _ hmh hbound (Or.inr (Or.inr ⟨rfl, hs⟩))⟩
+
+/-- the same, read off a successful `emsaPSSEncode` (the statement kept as `-- FULL:` before) -/
+theorem pss_verify_of_encode {h : HashAlg} (hk : HashOk h) {mHash salt em : Bytes} {emBits : Nat}
+    (he : emsaPSSEncode h mHash emBits salt = .ok em) :
+    emsaPSSVerify h mHash em emBits salt.length = .ok () ∧ emsaPSSVerify h mHash em emBits 0 = .ok () ∧
+      (salt.length = h.outSize → emsaPSSVerify h mHash em emBits (-1) = .ok ()) := by
+  obtain ⟨hmh, hbound, rfl⟩ := (pss_encode_ok_iff ..).1 he
+  obtain ⟨em', he', hv⟩ := pss_verify_encode hk mHash salt emBits hmh hbound
+  obtain ⟨_, _, rfl⟩ := (pss_encode_ok_iff ..).1 he'
+  exact hv
+
+/-! ### valid keys: the facts the padding layers need -/
+
+theorem KeyOk.n_pos {k : Priv} (h : KeyOk k) : 0 < k.n := by
+  rw [h.n_eq]; exact prod_primes_pos _ h.primes_prime
+
+theorem KeyOk.checkPub_eq {k : Priv} (h : KeyOk k) (he : 2 ≤ k.e) : checkPub k.pub = .ok (k.n, k.e) :=
+  checkPub_priv h.n_pos he
+
+/-! ### PKCS #1 v1.5: sign, then verify -/
+
+/-- Whenever the encoded message can be built (known hash id, digest of the right length, modulus of at least
+    `11 + len(DigestInfo)` octets), `SignPKCS1v15` on a valid key succeeds — the encoded message `00 01 …` is below the
+    modulus and the fault check passes — and `VerifyPKCS1v15` accepts the signature under the public half of the key. -/
+theorem pkcs1_sign_verify {k : Priv} (hk : KeyOk k) (he : 2 ≤ k.e) {h : Nat} {dg em : Bytes}
+    (hem : constructEM (sizeBytes k.n) h dg = .ok em) :
+    ∃ sig, signPKCS1v15 k h dg = .ok sig ∧ verifyPKCS1v15 k.pub h dg sig = .ok () := by
+  have hcore := crt_eq_plain hk
+  have henc := encrypt_decrypt hk
+  -- the encoded message has k octets and starts 00 01
+  obtain ⟨rest, hrest, hlen⟩ : ∃ rest, em = 0 :: 1 :: rest ∧ em.length = sizeBytes k.n := by
+    unfold constructEM at hem
+    split at hem
+    · contradiction
+    · contradiction
+    · next p _ =>
+      split at hem
+      · contradiction
+      · next hk' =>
+        have := Res.ok.inj hem
+        subst this
+        refine ⟨_, rfl, ?_⟩
+        simp only [List.length_cons, List.length_append, List.length_replicate]
+        omega
+  have hlt : os2ip em < k.n := by rw [hrest]; exact os2ip_00_01_lt hk.n_pos rest (by rw [← hrest]; exact hlen)
+  have hsign : signPKCS1v15 k h dg = .ok (natToBytesBE (sizeBytes k.n) (decryptCore k (os2ip em))) := by
+    unfold signPKCS1v15
+    rw [hem]
+    exact decrypt_ok_of_lt hcore henc em true hlt
+  refine ⟨_, hsign, ?_⟩
+  obtain ⟨h1, h2, h3⟩ := decrypt_then_encrypt hcore henc em _ true hlen (decrypt_ok_of_lt hcore henc em true hlt)
+  rw [encrypt_eq, if_pos h2] at h3
+  exact (pkcs1_verify_iff ..).2 ⟨k.n, k.e, em, hk.checkPub_eq he, h1, h2, hem, Res.ok.inj h3⟩
+
+/-- the statement kept as `-- FULL:` before: any signature `SignPKCS1v15` returns verifies -/
+theorem pkcs1_verify_of_sign {k : Priv} (hk : KeyOk k) (he : 2 ≤ k.e) {h : Nat} {dg sig : Bytes}
+    (hs : signPKCS1v15 k h dg = .ok sig) : verifyPKCS1v15 k.pub h dg sig = .ok () := by
+  cases hem : constructEM (sizeBytes k.n) h dg with
+  | err => unfold signPKCS1v15 at hs; rw [hem] at hs; contradiction
+  | panic => unfold signPKCS1v15 at hs; rw [hem] at hs; contradiction
+  | ok em =>
+    obtain ⟨sig', hs', hv⟩ := pkcs1_sign_verify hk he hem
+    rw [hs] at hs'
+    rw [Res.ok.inj hs']
+    exact hv
+
+/-- and conversely the ONLY byte string `VerifyPKCS1v15` accepts for (key, hash, digest) is the one `SignPKCS1v15`
+    produces: verification and signing define the same relation on a valid key. -/
+theorem pkcs1_verify_iff_sign {k : Priv} (hk : KeyOk k) (he : 2 ≤ k.e) (h : Nat) (dg s : Bytes) :
+    verifyPKCS1v15 k.pub h dg s = .ok () ↔ signPKCS1v15 k h dg = .ok s := by
+  constructor
+  · intro hv
+    obtain ⟨n, e, em, hc, _, _, hem, _⟩ := (pkcs1_verify_iff ..).1 hv
+    rw [hk.checkPub_eq he] at hc
+    have := Res.ok.inj hc
+    simp at this
+    obtain ⟨rfl, rfl⟩ := this
+    obtain ⟨sig, hs, hv'⟩ := pkcs1_sign_verify hk he hem
+    have hinj : RsaInj k.n k.e := fun a b ha hb hab => rsa_injective hk a b ha hb hab
+    rw [pkcs1_unique (hk.checkPub_eq he) hinj hv hv']
+    exact hs
+  · exact pkcs1_verify_of_sign hk he
+
+
+/-! ### RSASSA-PSS: sign, then verify -/
+
+/-- For every valid key, every hash with the length property, every digest of the hash's length and every salt that fits
+    (`emLen = ⌈(modBits-1)/8⌉ ≥ hLen + sLen + 2`): `signPSSWithSalt` succeeds (the encoded message is below
+    `2^(modBits-1) ≤ n`, the fault check passes) and `VerifyPSS` accepts the signature with the salt length used, with
+    `PSSSaltLengthAuto` and — for `sLen = hLen` — with `PSSSaltLengthEqualsHash`.  Covers moduli of 8k+1 bits, where
+    the encoded message is one octet shorter than the modulus and `VerifyPSS` strips the leading zero octet. -/
+theorem pss_sign_verify {k : Priv} (hk : KeyOk k) (he : 2 ≤ k.e) {h : HashAlg} (hh : HashOk h) (hashed salt : Bytes)
+    (hmh : hashed.length = h.outSize) (hbound : h.outSize + salt.length + 2 ≤ (bitLen k.n - 1 + 7) / 8) :
+    ∃ sig, signPSSWithSalt k h hashed salt = .ok sig ∧
+      verifyPSS k.pub h hashed sig salt.length = .ok () ∧
+      verifyPSS k.pub h hashed sig 0 = .ok () ∧
+      (salt.length = h.outSize → verifyPSS k.pub h hashed sig (-1) = .ok ()) := by
+  have hcore := crt_eq_plain hk
+  have henc := encrypt_decrypt hk
+  obtain ⟨em, hem, hv1, hv2, hv3⟩ := pss_verify_encode hh hashed salt (bitLen k.n - 1) hmh hbound
+  obtain ⟨_, _, hemdef⟩ := (pss_encode_ok_iff ..).1 hem
+  have hemlen : em.length = (bitLen k.n - 1 + 7) / 8 := by rw [hemdef]; exact pssEM_length hh _ _ _ hbound
+  have hle := emLen_le_sizeBytes k.n
+  -- the left-padded encoded message
+  obtain ⟨em', hem'⟩ : ∃ em', em' = (if em.length < sizeBytes k.n then
+      List.replicate (sizeBytes k.n - em.length) 0 ++ em else em) := ⟨_, rfl⟩
+  have hpad : em' = List.replicate (sizeBytes k.n - em.length) 0 ++ em := by
+    rw [hem']; split
+    · rfl
+    · rw [show sizeBytes k.n - em.length = 0 by omega]; rfl
+  have hlen' : em'.length = sizeBytes k.n := by
+    rw [hpad, List.length_append, List.length_replicate]; omega
+  have hlt : os2ip em' < k.n := by
+    rw [hpad, os2ip_replicate_zero, hemdef]
+    exact Nat.lt_of_lt_of_le (os2ip_pssEM_lt hh _ _ _ hbound) (two_pow_emBits_le hk.n_pos)
+  have hdec := decrypt_ok_of_lt hcore henc em' true hlt
+  have hsign : signPSSWithSalt k h hashed salt = .ok (natToBytesBE (sizeBytes k.n) (decryptCore k (os2ip em'))) := by
+    unfold signPSSWithSalt
+    dsimp only
+    rw [hem]
+    dsimp only
+    rw [← hem']
+    exact hdec
+  obtain ⟨h1, h2, h3⟩ := decrypt_then_encrypt hcore henc em' _ true hlen' hdec
+  have hver : ∀ sl : Int, -1 ≤ sl → emsaPSSVerify h hashed em (bitLen k.n - 1) sl = .ok () →
+      verifyPSS k.pub h hashed (natToBytesBE (sizeBytes k.n) (decryptCore k (os2ip em'))) sl = .ok () := by
+    intro sl hsl hv
+    unfold verifyPSS
+    rw [hk.checkPub_eq he]
+    simp only
+    rw [if_neg (by rw [h1]; simp), if_neg (by omega), h3]
+    simp only
+    rw [hpad, stripTo_pad _ _ _ hemlen]
+    exact hv
+  exact ⟨_, hsign, hver _ (by omega) hv1, hver _ (by omega) hv2, fun hs => hver _ (by omega) (hv3 hs)⟩
+
+/-- `SignPSS` followed by `VerifyPSS` with the same options: every signature `SignPSS` returns — for
+    `PSSSaltLengthAuto` (0: the largest salt that fits), `PSSSaltLengthEqualsHash` (-1) or an explicit positive salt
+    length, whatever the random stream — is accepted. -/
+theorem pss_verify_of_sign {k : Priv} (hk : KeyOk k) (he : 2 ≤ k.e) {h : HashAlg} (hh : HashOk h)
+    {digest rnd sig : Bytes} {saltLength : Int} (hs : signPSS k h digest saltLength rnd = .ok sig) :
+    verifyPSS k.pub h digest sig saltLength = .ok () := by
+  unfold signPSS at hs
+  -- the salt length `SignPSS` settles on
+  obtain ⟨slR, hslR⟩ : ∃ slR : Res Nat, slR = (if saltLength = 0 then
+      (if ((((bitLen k.n - 1 + 7) / 8 : Nat) : Int) - 2 - (h.outSize : Int)) < 0 then Res.err
+       else Res.ok ((((bitLen k.n - 1 + 7) / 8 : Nat) : Int) - 2 - (h.outSize : Int)).toNat)
+      else if saltLength = -1 then Res.ok h.outSize
+      else if saltLength ≤ 0 then Res.err else Res.ok saltLength.toNat) := ⟨_, rfl⟩
+  simp only at hs
+  rw [← hslR] at hs
+  cases hsl : slR with
+  | err => rw [hsl] at hs; contradiction
+  | panic => rw [hsl] at hs; contradiction
+  | ok sl =>
+    rw [hsl] at hs
+    simp only at hs
+    split at hs
+    · contradiction
+    · next hrnd =>
+      have hsaltlen : (rnd.take sl).length = sl := by rw [List.length_take]; omega
+      -- `signPSSWithSalt` succeeded, so the guards of `emsaPSSEncode` hold
+      have hguards : digest.length = h.outSize ∧ h.outSize + sl + 2 ≤ (bitLen k.n - 1 + 7) / 8 := by
+        unfold signPSSWithSalt at hs
+        dsimp only at hs
+        cases henc : emsaPSSEncode h digest (bitLen k.n - 1) (rnd.take sl) with
+        | err => rw [henc] at hs; contradiction
+        | panic => rw [henc] at hs; contradiction
+        | ok em =>
+          obtain ⟨a, b, _⟩ := (pss_encode_ok_iff ..).1 henc
+          rw [hsaltlen] at b
+          exact ⟨a, b⟩
+      obtain ⟨sig', hs', hv1, hv2, hv3⟩ := pss_sign_verify hk he hh digest (rnd.take sl) hguards.1
+        (by rw [hsaltlen]; exact hguards.2)
+      rw [hs] at hs'
+      have := Res.ok.inj hs'
+      subst this
+      rw [hsaltlen] at hv1 hv3
+      -- which of the three modes
+      by_cases h0 : saltLength = 0
+      · rw [h0]; exact hv2
+      · by_cases h1 : saltLength = -1
+        · rw [h1]
+          apply hv3
+          rw [hslR, if_neg h0, if_pos h1] at hsl
+          exact (Res.ok.inj hsl).symm
+        · rw [hslR, if_neg h0, if_neg h1] at hsl
+          split at hsl
+          · contradiction
+          · have := Res.ok.inj hsl
+            have hcast : saltLength = (sl : Int) := by omega
+            rw [hcast]; exact hv1
+
+/-! ### RSAES-OAEP: encrypt, then decrypt -/
+
+/-- the padding layer alone: for every hash with the length property, every seed of `hLen` octets, every message and
+    label, unpadding the padded message gives the message back (`oaepPad`/`oaepUnpad` are the bodies of
+    `EncryptOAEP`/`decryptOAEP` around the RSA operation: `encryptOAEP_eq`, `decryptOAEP_eq`). -/
+theorem oaep_unpad_pad {h : HashAlg} (hk : HashOk h) (k : Nat) (seed msg label : Bytes)
+    (hseed : seed.length = h.outSize) : oaepUnpad h h (oaepPad h k seed msg label) label = .ok msg :=
+  oaepUnpad_oaepPad hk k seed msg label hseed
+
+/-- Whatever `EncryptOAEP` returns under the public half of a valid key, `decryptOAEP` (same hash for the label and for
+    MGF1, same label) decrypts to the message. -/
+theorem oaep_decrypt_of_encrypt {k : Priv} (hk : KeyOk k) (he : 2 ≤ k.e) {h : HashAlg} (hh : HashOk h)
+    {rnd msg label c : Bytes} (henc : encryptOAEP h k.pub rnd msg label = .ok c) :
+    decryptOAEP h h k c label = .ok msg := by
+  rw [encryptOAEP_eq, hk.checkPub_eq he] at henc
+  simp only at henc
+  split at henc
+  · contradiction
+  · next hmsg =>
+    split at henc
+    · contradiction
+    · next hrnd =>
+      have hseed : (rnd.take h.outSize).length = h.outSize := by rw [List.length_take]; omega
+      have hlen := oaepPad_length hh (sizeBytes k.n) (rnd.take h.outSize) msg label hseed (by omega)
+      obtain ⟨hc, hd⟩ := encrypt_then_decrypt (decrypt_encrypt hk) _ c hlen henc
+      rw [decryptOAEP_eq, hk.checkPub_eq he]
+      simp only
+      rw [if_neg (by rw [hc]; omega), hd]
+      exact oaep_unpad_pad hh _ _ _ _ hseed
+
+/-- and `EncryptOAEP` does succeed for every message within the RFC 8017 length bound `mLen ≤ k - 2hLen - 2` given
+    `hLen` octets of randomness (the padded message starts with 00, hence is below the modulus): the full round trip. -/
+theorem oaep_decrypt_encrypt {k : Priv} (hk : KeyOk k) (he : 2 ≤ k.e) {h : HashAlg} (hh : HashOk h)
+    (rnd msg label : Bytes) (hmsg : msg.length + 2 * h.outSize + 2 ≤ sizeBytes k.n) (hrnd : h.outSize ≤ rnd.length) :
+    ∃ c, encryptOAEP h k.pub rnd msg label = .ok c ∧ decryptOAEP h h k c label = .ok msg := by
+  have hseed : (rnd.take h.outSize).length = h.outSize := by rw [List.length_take]; omega
+  have hlen := oaepPad_length hh (sizeBytes k.n) (rnd.take h.outSize) msg label hseed hmsg
+  have hlt : os2ip (oaepPad h (sizeBytes k.n) (rnd.take h.outSize) msg label) < k.n := by
+    have : ∃ rest, oaepPad h (sizeBytes k.n) (rnd.take h.outSize) msg label = 0 :: rest := ⟨_, rfl⟩
+    obtain ⟨rest, hr⟩ := this
+    rw [hr] at hlen ⊢
+    exact os2ip_00_lt hk.n_pos rest hlen
+  have hex : ∃ c, encryptOAEP h k.pub rnd msg label = .ok c := by
+    rw [encryptOAEP_eq, hk.checkPub_eq he]
+    simp only
+    rw [if_neg (by omega), if_neg (by omega), encrypt_eq, if_pos hlt]
+    exact ⟨_, rfl⟩
+  obtain ⟨c, hc⟩ := hex
+  exact ⟨c, hc, oaep_decrypt_of_encrypt hk he hh hc⟩
+
+
+/-- the OAEP unpadding accepts EXACTLY the paddings: a `k`-octet string (`k ≥ 2hLen + 2`) unpads to `msg` iff it is
+    `oaepPad` of `msg` under some seed of `hLen` octets (and `msg` respects the length bound) -/
+theorem oaep_unpad_iff {h : HashAlg} (hk : HashOk h) (k : Nat) (em label msg : Bytes)
+    (hlen : em.length = k) (hk2 : 2 * h.outSize + 2 ≤ k) :
+    oaepUnpad h h em label = .ok msg ↔
+      ∃ seed, seed.length = h.outSize ∧ msg.length + 2 * h.outSize + 2 ≤ k ∧ em = oaepPad h k seed msg label := by
+  constructor
+  · exact oaepUnpad_ok_inv hk k hlen hk2
+  · rintro ⟨seed, hs, _, rfl⟩
+    exact oaep_unpad_pad hk k seed msg label hs
+
+/-- On a valid key `decryptOAEP` returns `msg` for EXACTLY the ciphertexts that are (up to leading zero octets, which
+    `decryptOAEP` tolerates) an `EncryptOAEP` of `msg` under some seed: nothing else decrypts. -/
+theorem oaep_decrypt_iff {k : Priv} (hk : KeyOk k) (he : 2 ≤ k.e) {h : HashAlg} (hh : HashOk h) (c label msg : Bytes) :
+    decryptOAEP h h k c label = .ok msg ↔
+      c.length ≤ sizeBytes k.n ∧ ∃ seed, seed.length = h.outSize ∧
+        encryptOAEP h k.pub seed msg label = .ok (List.replicate (sizeBytes k.n - c.length) 0 ++ c) := by
+  constructor
+  · intro hd
+    rw [decryptOAEP_eq, hk.checkPub_eq he] at hd
+    dsimp only at hd
+    split at hd
+    · contradiction
+    · next hg =>
+      have hcl : c.length ≤ sizeBytes k.n := by omega
+      have hk2 : 2 * h.outSize + 2 ≤ sizeBytes k.n := by omega
+      by_cases hlt : os2ip c < k.n
+      · rw [decrypt_ok_of_lt (crt_eq_plain hk) (encrypt_decrypt hk) c false hlt] at hd
+        dsimp only at hd
+        obtain ⟨seed, hs, hm, hem⟩ := oaepUnpad_ok_inv hh (sizeBytes k.n) (natToBytesBE_length _ _) hk2 hd
+        refine ⟨hcl, seed, hs, ?_⟩
+        have hcore : decryptCore k (os2ip c) < k.n := by
+          rw [crt_eq_plain hk]; exact Nat.mod_lt _ hk.n_pos
+        rw [encryptOAEP_eq, hk.checkPub_eq he]
+        dsimp only
+        rw [if_neg (by omega), if_neg (by omega), List.take_of_length_le (by omega), ← hem, encrypt_eq,
+          os2ip_natToBytesBE_of_lt (Nat.lt_trans hcore (lt_pow_sizeBytes _)), if_pos hcore, ← modPow_eq,
+          encrypt_decrypt hk _ hlt]
+        congr 1
+        have hpl : (List.replicate (sizeBytes k.n - c.length) 0 ++ c).length = sizeBytes k.n := by
+          rw [List.length_append, List.length_replicate]; omega
+        have hb := natToBytesBE_os2ip (List.replicate (sizeBytes k.n - c.length) 0 ++ c)
+        rw [hpl, os2ip_replicate_zero] at hb
+        exact hb
+      · unfold decrypt at hd
+        rw [if_pos (by omega)] at hd
+        contradiction
+  · rintro ⟨hcl, seed, hs, henc⟩
+    have hd := oaep_decrypt_of_encrypt hk he hh henc
+    rw [decryptOAEP_eq, hk.checkPub_eq he] at hd ⊢
+    dsimp only at hd ⊢
+    split at hd
+    · contradiction
+    · next hg =>
+      rw [if_neg (by omega)]
+      rw [decrypt_pad] at hd
+      exact hd
+
+/-! ### RSAES-PKCS1-v1_5: encrypt, then decrypt -/
+
+/-- Whatever `EncryptPKCS1v15` returns under the public half of a valid key — for every random stream, including the
+    re-draws of zero octets — `DecryptPKCS1v15` decrypts to the message: the padding string has no zero octet and at
+    least 8 octets, so the separator scan stops exactly in front of the message. -/
+theorem pkcs1_decrypt_of_encrypt {k : Priv} (hk : KeyOk k) (he : 2 ≤ k.e) {rnd msg c : Bytes}
+    (henc : encryptPKCS1v15 k.pub rnd msg = .ok c) : decryptPKCS1v15 k c = .ok msg := by
+  unfold encryptPKCS1v15 at henc
+  rw [hk.checkPub_eq he] at henc
+  dsimp only at henc
+  split at henc
+  · contradiction
+  · next hmsg =>
+    cases hps : nonZeroRandomBytes (sizeBytes k.n - msg.length - 3) rnd with
+    | none => rw [hps] at henc; contradiction
+    | some ps =>
+      rw [hps] at henc
+      dsimp only at henc
+      obtain ⟨hpl, hnz⟩ := nonZeroRandomBytes_spec hps
+      have hlen : (0 :: 2 :: (ps ++ (0 :: msg)) : Bytes).length = sizeBytes k.n := by
+        simp only [List.length_cons, List.length_append, hpl]; omega
+      obtain ⟨_, hd⟩ := encrypt_then_decrypt (decrypt_encrypt hk) _ c hlen henc
+      unfold decryptPKCS1v15
+      rw [hk.checkPub_eq he]
+      dsimp only
+      rw [if_neg (by omega), hd]
+      dsimp only
+      rw [firstZeroFrom2_em 0 2 ps msg hnz]
+      dsimp only
+      rw [if_pos ⟨rfl, rfl, by omega⟩, drop_em]
+
+/-- and `EncryptPKCS1v15` succeeds for every message of at most `k - 11` octets whenever the random stream suffices
+    for the padding string (`00 02 …` is below the modulus): the full round trip. -/
+theorem pkcs1_decrypt_encrypt {k : Priv} (hk : KeyOk k) (he : 2 ≤ k.e) (rnd msg ps : Bytes)
+    (hmsg : msg.length + 11 ≤ sizeBytes k.n)
+    (hps : nonZeroRandomBytes (sizeBytes k.n - msg.length - 3) rnd = some ps) :
+    ∃ c, encryptPKCS1v15 k.pub rnd msg = .ok c ∧ decryptPKCS1v15 k c = .ok msg := by
+  obtain ⟨hpl, _⟩ := nonZeroRandomBytes_spec hps
+  have hlen : (0 :: 2 :: (ps ++ (0 :: msg)) : Bytes).length = sizeBytes k.n := by
+    simp only [List.length_cons, List.length_append, hpl]; omega
+  have hlt := os2ip_00_lt hk.n_pos _ hlen
+  have hex : ∃ c, encryptPKCS1v15 k.pub rnd msg = .ok c := by
+    unfold encryptPKCS1v15
+    rw [hk.checkPub_eq he]
+    dsimp only
+    rw [if_neg (by omega), hps]
+    dsimp only
+    rw [encrypt_eq, if_pos hlt]
+    exact ⟨_, rfl⟩
+  obtain ⟨c, hc⟩ := hex
+  exact ⟨c, hc, pkcs1_decrypt_of_encrypt hk he hc⟩
+
+/-- decision logic of `DecryptPKCS1v15` on a valid key, for all ciphertexts: it returns `msg` exactly when the
+    ciphertext is (as an integer) below the modulus, the modulus has at least 11 octets, and `c^d mod n` written on
+    `Size()` octets is `00 02 ‖ PS ‖ 00 ‖ msg` with a zero-free `PS` of at least 8 octets. -/
+theorem pkcs1_decrypt_iff {k : Priv} (hk : KeyOk k) (he : 2 ≤ k.e) (c msg : Bytes) :
+    decryptPKCS1v15 k c = .ok msg ↔
+      11 ≤ sizeBytes k.n ∧ os2ip c < k.n ∧ ∃ ps, (∀ b ∈ ps, b ≠ 0) ∧ 8 ≤ ps.length ∧
+        natToBytesBE (sizeBytes k.n) (os2ip c ^ k.d % k.n) = 0 :: 2 :: (ps ++ 0 :: msg) := by
+  unfold decryptPKCS1v15
+  rw [hk.checkPub_eq he]
+  dsimp only
+  by_cases h11 : sizeBytes k.n < 11
+  · rw [if_pos h11]
+    constructor
+    · intro h; contradiction
+    · rintro ⟨h, _⟩; omega
+  rw [if_neg h11]
+  by_cases hlt : os2ip c < k.n
+  · rw [decrypt_ok_of_lt (crt_eq_plain hk) (encrypt_decrypt hk) c false hlt, crt_eq_plain hk]
+    dsimp only
+    have hl := natToBytesBE_length (sizeBytes k.n) (os2ip c ^ k.d % k.n)
+    cases hem : natToBytesBE (sizeBytes k.n) (os2ip c ^ k.d % k.n) with
+    | nil => rw [hem] at hl; simp at hl; omega
+    | cons b0 t0 =>
+      cases t0 with
+      | nil => rw [hem] at hl; simp at hl; omega
+      | cons b1 t =>
+        dsimp only
+        constructor
+        · intro hd
+          cases hfz : firstZeroFrom2 (b0 :: b1 :: t) with
+          | none => rw [hfz] at hd; contradiction
+          | some idx =>
+            rw [hfz] at hd
+            dsimp only at hd
+            split at hd
+            · next hc =>
+              obtain ⟨hb0, hb1, hidx⟩ := hc
+              obtain ⟨ps, hnz, hi, ht⟩ := firstZeroFrom2_inv hfz
+              have hm := Res.ok.inj hd
+              rw [hm] at ht
+              refine ⟨by omega, hlt, ps, hnz, by omega, ?_⟩
+              rw [hb0, hb1, ← ht]
+            · contradiction
+        · rintro ⟨_, _, ps, hnz, hps, heq⟩
+          have e := List.cons.inj heq
+          have e' := List.cons.inj e.2
+          rw [e.1, e'.1, e'.2, firstZeroFrom2_em 0 2 ps msg hnz]
+          dsimp only
+          rw [if_pos ⟨rfl, rfl, by omega⟩, drop_em]
+  · have : decrypt k c false = .err := by unfold decrypt; rw [if_pos (by omega)]
+    rw [this]
+    dsimp only
+    constructor
+    · intro h; contradiction
+    · rintro ⟨_, h, _⟩; exact absurd h hlt
+
+/-! ### the private-key operations never panic on a valid key -/
+
+theorem checkPub_never_panics (p : Pub) : checkPub p ≠ .panic := by
+  unfold checkPub
+  split
+  · simp
+  · split
+    · simp
+    · split
+      · simp
+      · split <;> simp
+
+/-- `decrypt` on a valid key returns an error (input ≥ n) or exactly `Size()` octets — the slice expression of the
+    big-endian copy (`Res.panic` in the model) is out of reach because the result is below the modulus. -/
+theorem decrypt_total {k : Priv} (hk : KeyOk k) (c : Bytes) (check : Bool) :
+    decrypt k c check = .err ∨ ∃ em, decrypt k c check = .ok em ∧ em.length = sizeBytes k.n := by
+  by_cases hlt : os2ip c < k.n
+  · right
+    exact ⟨_, decrypt_ok_of_lt (crt_eq_plain hk) (encrypt_decrypt hk) c check hlt, natToBytesBE_length _ _⟩
+  · left
+    unfold decrypt
+    rw [if_pos (by omega)]
+
+/-- `DecryptPKCS1v15` never panics on a valid key, whatever the ciphertext (the `em[0]`, `em[1]` accesses are in range) -/
+theorem decryptPKCS1v15_never_panics {k : Priv} (hk : KeyOk k) (c : Bytes) : decryptPKCS1v15 k c ≠ .panic := by
+  unfold decryptPKCS1v15
+  split
+  · simp
+  · next hp => exact absurd hp (checkPub_never_panics _)
+  · split
+    · simp
+    · next h11 =>
+      rcases decrypt_total hk c false with he | ⟨em, he, hl⟩
+      · rw [he]; simp
+      · rw [he]
+        dsimp only
+        split
+        · split
+          · simp
+          · split <;> simp
+        · next hne =>
+          exfalso
+          cases em with
+          | nil => simp at hl; omega
+          | cons a t =>
+            cases t with
+            | nil => simp at hl; omega
+            | cons b t' => exact hne a b t' rfl
+
+/-- `decryptOAEP` never panics on a valid key, whatever the ciphertext, label and hashes (the `em[0]` access is in range) -/
+theorem decryptOAEP_never_panics {k : Priv} (hk : KeyOk k) (h mgf : HashAlg) (c label : Bytes) :
+    decryptOAEP h mgf k c label ≠ .panic := by
+  rw [decryptOAEP_eq]
+  split
+  · simp
+  · next hp => exact absurd hp (checkPub_never_panics _)
+  · split
+    · simp
+    · next hg =>
+      rcases decrypt_total hk c false with he | ⟨em, he, hl⟩
+      · rw [he]; simp
+      · rw [he]
+        dsimp only
+        unfold oaepUnpad
+        cases em with
+        | nil => simp at hl; omega
+        | cons b0 body =>
+          dsimp only
+          split
+          · simp
+          · split <;> simp
 
 /-! ### the hypotheses are satisfiable -/
 
@@ -251,6 +767,58 @@ example : KeyOk toyKey where
 
 example : Malformed ⟨some 0, some 65537⟩ := Or.inr (Or.inl ⟨0, rfl, by decide⟩)
 example : Malformed ⟨some 143, none⟩ := Or.inr (Or.inr (Or.inl rfl))
+
+/-! ### the hypotheses of the padding theorems are satisfiable (real SHA-256, a 622-bit 40-prime key) -/
+
+/-- the length hypothesis holds for the real SHA-256 (and for every algorithm `hashAlg` returns: `hashAlg_ok`) -/
+example : HashOk HashAlg.sha256 := hashOk_sha256
+example : ∀ m, (HashAlg.sha256.hash m).length = HashAlg.sha256.outSize := sha256_length
+example : ∀ id a, hashAlg id = some a → HashOk a := fun _ _ => hashAlg_ok
+
+/-- `key40` (`ZV.Proofs.C23Key`): 40 distinct 16-bit primes, e = 65537, d = e⁻¹ mod lcm(pᵢ-1) — a valid 622-bit key -/
+theorem key40_ok : KeyOk key40 where
+  primes_prime := key40_primes
+  nodup := by decide
+  n_eq := by decide
+  ed := key40_ed
+  pre_ok := by
+    intro dp dq qinv hpre
+    simp [key40] at hpre
+
+/-- `pss_verify_encode` with SHA-256, a 32-octet salt and a 1024-bit modulus (`emBits = 1023`) -/
+example (mHash salt : Bytes) (h1 : mHash.length = 32) (h2 : salt.length = 32) :
+    ∃ em, emsaPSSEncode .sha256 mHash 1023 salt = .ok em ∧ emsaPSSVerify .sha256 mHash em 1023 (-1) = .ok () := by
+  obtain ⟨em, he, _, _, hv⟩ := pss_verify_encode hashOk_sha256 mHash salt 1023 h1 (by rw [h2]; decide)
+  exact ⟨em, he, hv h2⟩
+
+/-- `pkcs1_sign_verify` / `pkcs1_verify_iff_sign`: SHA-256 DigestInfo under `key40` -/
+example (dg : Bytes) (hd : dg.length = 32) :
+    ∃ sig, signPKCS1v15 key40 5 dg = .ok sig ∧ verifyPKCS1v15 key40.pub 5 dg sig = .ok () := by
+  have hem : ∃ em, constructEM (sizeBytes key40.n) 5 dg = .ok em := by
+    unfold constructEM emPrefix
+    rw [hd, key40_size.1]
+    exact ⟨_, rfl⟩
+  obtain ⟨em, hem⟩ := hem
+  exact pkcs1_sign_verify key40_ok (by decide) hem
+
+/-- `pss_sign_verify` / `pss_verify_of_sign`: SHA-256, salt of 32 octets under `key40` (emLen = 78 ≥ 32 + 32 + 2) -/
+example (dg salt : Bytes) (hd : dg.length = 32) (hs : salt.length = 32) :
+    ∃ sig, signPSSWithSalt key40 .sha256 dg salt = .ok sig ∧ verifyPSS key40.pub .sha256 dg sig (-1) = .ok () := by
+  obtain ⟨sig, h1, _, _, h4⟩ := pss_sign_verify key40_ok (by decide) hashOk_sha256 dg salt hd
+    (by rw [hs, key40_size.2]; decide)
+  exact ⟨sig, h1, h4 hs⟩
+
+/-- `oaep_decrypt_encrypt`: SHA-256, messages up to 78 - 66 = 12 octets under `key40` -/
+example (rnd msg label : Bytes) (hm : msg.length ≤ 12) (hr : 32 ≤ rnd.length) :
+    ∃ c, encryptOAEP .sha256 key40.pub rnd msg label = .ok c ∧ decryptOAEP .sha256 .sha256 key40 c label = .ok msg :=
+  oaep_decrypt_encrypt key40_ok (by decide) hashOk_sha256 rnd msg label
+    (by rw [key40_size.1]; show msg.length + 2 * 32 + 2 ≤ 78; omega) hr
+
+/-- `pkcs1_decrypt_encrypt` under `key40`: an all-nonzero stream needs no re-draw -/
+example : ∃ c, encryptPKCS1v15 key40.pub (List.replicate 72 7) [1, 2, 3] = .ok c ∧
+    decryptPKCS1v15 key40 c = .ok [1, 2, 3] :=
+  pkcs1_decrypt_encrypt key40_ok (by decide) _ _ (List.replicate 72 7)
+    (by rw [key40_size.1]; decide) (by rw [key40_size.1]; decide)
 
 /-! ### RSASSA-PSS: the octets above the encoded message (modulus bit length = 1 mod 8, `emLen = k-1`) -/
 
@@ -315,4 +883,114 @@ theorem verifyPSS_leading_octet {pub : Pub} {h : HashAlg} {dg sig : Bytes} {sl :
 
 example : stripTo 2 [0, 0, 5, 6] = some [5, 6] := by decide
 example : stripTo 2 [1, 5, 6] = none := by decide
+/-! ### EMSA-PSS / `VerifyPSS`: what is accepted, for all inputs -/
+
+/-- `emsaPSSVerify` accepts EXACTLY the outputs of `emsaPSSEncode`: `em` is accepted for salt-length option `sl` iff it is
+    the encoding of the digest under some salt whose length the option allows (`0` = any length, `-1` = `hLen`).
+    So a verified message has the RFC 8017 §9.1.1 shape for all inputs, not only on generated ones. -/
+theorem pss_verify_iff {h : HashAlg} (hk : HashOk h) (mHash em : Bytes) (emBits : Nat) (sl : Int) :
+    emsaPSSVerify h mHash em emBits sl = .ok () ↔
+      ∃ salt, emsaPSSEncode h mHash emBits salt = .ok em ∧
+        (sl = 0 ∨ sl = salt.length ∨ (sl = -1 ∧ salt.length = h.outSize)) := by
+  constructor
+  · intro hv
+    obtain ⟨salt, hem, h1, h2, h3⟩ := emsaPSSVerify_ok_inv hk hv
+    exact ⟨salt, (pss_encode_ok_iff ..).2 ⟨h1, h2, hem⟩, h3⟩
+  · rintro ⟨salt, he, hmode⟩
+    obtain ⟨v1, v2, v3⟩ := pss_verify_of_encode hk he
+    rcases hmode with rfl | rfl | ⟨rfl, hs⟩
+    · exact v2
+    · exact v1
+    · exact v3 hs
+
+/-- `VerifyPSS` never panics, whatever the key, signature, digest and salt-length option (no hypothesis on the hash):
+    the index expressions of `emsaPSSVerify` are guarded and the representative `s^e mod n` always fits `Size()` octets. -/
+theorem verifyPSS_never_panics (pub : Pub) (h : HashAlg) (dg sig : Bytes) (sl : Int) :
+    verifyPSS pub h dg sig sl ≠ .panic := by
+  unfold verifyPSS
+  cases hc : checkPub pub with
+  | err => simp
+  | panic =>
+    exfalso
+    unfold checkPub at hc
+    split at hc
+    · contradiction
+    · split at hc
+      · contradiction
+      · split at hc
+        · contradiction
+        · split at hc <;> contradiction
+  | ok ne =>
+    obtain ⟨n, e⟩ := ne
+    dsimp only
+    split
+    · simp
+    · split
+      · simp
+      · next hsl =>
+        rw [encrypt_eq]
+        by_cases hlt : os2ip sig < n
+        · rw [if_pos hlt]
+          dsimp only
+          split
+          · simp
+          · exact emsaPSSVerify_no_panic _ _ _ _ _ (by omega)
+        · rw [if_neg hlt]; simp
+
+/-- decision logic of `VerifyPSS` for all inputs: it accepts exactly when the key is well-formed, the signature has
+    `Size()` octets and is below the modulus, the option is ≥ -1, and `s^e mod n` written on `Size()` octets is
+    zero octets (none, or one for moduli of 8k+1 bits) followed by an EMSA-PSS encoding of the digest on
+    `emBits = modBits - 1` bits under a salt the option allows. -/
+theorem verifyPSS_iff {h : HashAlg} (hk : HashOk h) (pub : Pub) (dg sig : Bytes) (sl : Int) :
+    verifyPSS pub h dg sig sl = .ok () ↔
+      ∃ n e salt em, checkPub pub = .ok (n, e) ∧ sig.length = sizeBytes n ∧ os2ip sig < n ∧ -1 ≤ sl ∧
+        emsaPSSEncode h dg (bitLen n - 1) salt = .ok em ∧
+        (sl = 0 ∨ sl = salt.length ∨ (sl = -1 ∧ salt.length = h.outSize)) ∧
+        natToBytesBE (sizeBytes n) (os2ip sig ^ e % n) = List.replicate (sizeBytes n - em.length) 0 ++ em := by
+  unfold verifyPSS
+  cases hc : checkPub pub with
+  | err => simp
+  | panic => simp
+  | ok ne =>
+    obtain ⟨n, e⟩ := ne
+    dsimp only
+    have inj : ∀ n' e', (Res.ok (n, e) : Res (Nat × Nat)) = .ok (n', e') → n' = n ∧ e' = e := by
+      intro n' e' h
+      have := Res.ok.inj h
+      simp at this
+      exact ⟨this.1.symm, this.2.symm⟩
+    constructor
+    · intro hv
+      split at hv
+      · contradiction
+      · next hl =>
+        split at hv
+        · contradiction
+        · next hsl =>
+          rw [encrypt_eq] at hv
+          by_cases hlt : os2ip sig < n
+          · rw [if_pos hlt] at hv
+            dsimp only at hv
+            cases hst : stripTo ((bitLen n - 1 + 7) / 8) (natToBytesBE (sizeBytes n) (os2ip sig ^ e % n)) with
+            | none => rw [hst] at hv; contradiction
+            | some em =>
+              rw [hst] at hv
+              dsimp only at hv
+              obtain ⟨salt, he, hmode⟩ := (pss_verify_iff hk ..).1 hv
+              obtain ⟨z1, _⟩ := stripTo_zeros _ _ _ hst
+              rw [natToBytesBE_length] at z1
+              exact ⟨n, e, salt, em, rfl, by simpa using hl, hlt, by omega, he, hmode, z1⟩
+          · rw [if_neg hlt] at hv; contradiction
+    · rintro ⟨n', e', salt, em, hne, hl, hlt, hsl, he, hmode, hb⟩
+      obtain ⟨rfl, rfl⟩ := inj _ _ hne
+      rw [if_neg (by simp [hl]), if_neg (by omega), encrypt_eq, if_pos hlt]
+      dsimp only
+      obtain ⟨_, hbound, hem⟩ := (pss_encode_ok_iff ..).1 he
+      have hemlen : em.length = (bitLen n' - 1 + 7) / 8 := by rw [hem]; exact pssEM_length hk _ _ _ hbound
+      rw [hb, stripTo_pad _ _ _ hemlen]
+      dsimp only
+      exact (pss_verify_iff hk ..).2 ⟨salt, he, hmode⟩
+
+example : HashOk HashAlg.sha512 := hashOk_sha512
+
 end ZV.C23
